@@ -417,6 +417,7 @@ DmlProd ==
                         D(<<"INSERT", "INTO", "t", "(", "id", ",", "<DateCol>", ")", "VALUES", "(", "100", ",", "<Date>", ")">>),
                         D(<<"INSERT", "INTO", "t", "(", "id", ",", "v", ")", "VALUES", "(", "100", ",", "<VecLit>", ")">>),
                         D(<<"INSERT", "INTO", "e", "(", "id", ",", "v", ")", "VALUES", "(", "100", ",", "<VecLit>", ")">>),
+                        D(<<"INSERT", "INTO", "e", "(", "id", ",", "v", ")", "VALUES", "(", "100", ",", "<Expr>", ")">>),   \* any type into the vector column
                         D(<<"INSERT", "INTO", "t", "(", "id", ",", "j", ")", "VALUES", "(", "100", ",", "<JsonLit>", ")">>),
                         D(<<"INSERT", "INTO", "t", "(", "id", ",", "uu", ")", "VALUES", "(", "100", ",", "<UuidLit>", ")">>),
                         D(<<"INSERT", "INTO", "t", "(", "id", ",", "b", ")", "VALUES", "(", "100", ",", "<BlobLit>", ")">>),
